@@ -1179,6 +1179,9 @@ impl<'a> GeneratorState<'a> {
 
     fn generate_asm_statement(&mut self, s: &str, size: Option<u32>) -> Result<(), Error> {
         self.inline(s, size)?;
+        // Inline assembly may leave anything in the flags
+        self.flags = FlagsState::Unknown;
+        self.carry_flag_ok = false;
         Ok(())
     }
 
@@ -1318,7 +1321,19 @@ impl<'a> GeneratorState<'a> {
         // A constant (or the address held by a constant pointer) is not a place to store to:
         // STA has no immediate addressing mode
         if !load {
-            if let ExprType::Immediate(_) = expr {
+            // An array name, &x or a constant pointer taken as a value is an address (an
+            // immediate operand), not a place to store to either
+            let address = match expr {
+                ExprType::Immediate(_) => true,
+                ExprType::Absolute(variable, eight_bits, _) => {
+                    let v = self.compiler_state.get_variable(variable);
+                    !*eight_bits
+                        && (v.var_type == VariableType::Char
+                            || (v.var_type == VariableType::CharPtr && v.var_const))
+                }
+                _ => false,
+            };
+            if address {
                 return Err(self
                     .compiler_state
                     .syntax_error("Store only works on memory locations or registers", pos));
